@@ -110,6 +110,22 @@ def run(ctx: Ctx) -> int:
                 probes.append({"side": "scp", "op": "find", "model": model, "code": code, "continued": scp_continues(model, code)})
                 ctx.case(("scp", model, cats[code]))
     ctx.traces = len(probes)
+    # the tables are judged as they are AFTER the library has been used: the probes above, and C-GET / C-MOVE SCPs whose
+    # sub-operations were answered with status codes no table lists (vendor warnings, unknown codes) - they are module-level
+    # dictionaries shared by every association of the process
+    import scp_exec
+    old_sub = dict(scp_exec.SUB_STATUS)
+    try:
+        for code in (0xB00C, 0xB0F0, 0x0001, 0xFFF0, 0xFF00):
+            scp_exec.SUB_STATUS["W"] = code
+            for svc in ("GET", "MOVE"):
+                pre = [{"k": "dest", "st": "ok", "ds": "none", "sub": "S"}] if svc == "MOVE" else []
+                scp_exec.execute(svc, pre + [{"k": "count", "st": "n1", "ds": "none", "sub": "S"}, {"k": "y", "st": "P0", "ds": "ds", "sub": "W"}])
+                ctx.case(("exercise", svc, code))
+    finally:
+        scp_exec.SUB_STATUS.clear()
+        scp_exec.SUB_STATUS.update(old_sub)
+    rows, names = table_rows()
     dump = os.path.join(ctx.work, "dump.json")
     with open(dump, "w") as f:
         by_rows = [[] for _ in range(65536)]
